@@ -362,7 +362,7 @@ def build_k1(out, variant='nothread', lib=None):
 def build_k2(out, variant='nothread', lib=None):
     if lib is None:
         lib = build_lib(out, variant)
-    return build_bin(out, variant, 'k2', ['k2.c'], lib, extra_ld=['-Wl,--wrap=ldb_versions_apply'])
+    return build_bin(out, variant, 'k2', ['k2.c'], lib, extra_ld=['-Wl,--wrap=ldb_versions_apply', '-Wl,--wrap=unlink'])
 
 K3_WRAPS = ['open', 'close', 'write', 'read', 'pread', 'mmap', 'fsync', 'fdatasync', 'rename', 'unlink', 'mkdir', 'link']
 def build_k3(out, variant='nothread', lib=None):
